@@ -36,6 +36,24 @@ def leaves():
     return Tag, Rev
 
 
+ITER_KIND = ["list"]      # how the parts are handed to CompositeTransform: list, tuple, generator, iter(list), map object, reversed(list)
+
+
+def as_iterable(parts):
+    k = ITER_KIND[0]
+    if k == "tuple":
+        return tuple(parts)
+    if k == "generator":
+        return (p_ for p_ in parts)
+    if k == "iter":
+        return iter(parts)
+    if k == "map":
+        return map(lambda p_: p_, parts)
+    if k == "reversed":
+        return reversed(parts[::-1])
+    return parts
+
+
 def build(prog, Tag, Rev, shared=None):
     """prog: nested tuples ('leaf',k) | ('shared',k) | ('rev',) | ('comp',[..]) | ('inv',p) -> (transform, encoding);
     ('shared', k) denotes ONE transform object per program, however often it occurs (tied layers)"""
@@ -55,7 +73,7 @@ def build(prog, Tag, Rev, shared=None):
         enc = [1, len(parts)]
         for _, e in parts:
             enc += e
-        return CompositeTransform([t for t, _ in parts]), enc
+        return CompositeTransform(as_iterable([t for t, _ in parts])), enc
     if kind == "inv":
         t, e = build(prog[1], Tag, Rev, shared)
         return InverseTransform(t), [2] + e
@@ -150,6 +168,29 @@ def run(tier, seed):
                 m2 = drv.call("prog_inv", Z(enc), F(y[row].tolist()))
                 if m2[0] != x[row].tolist() or float(m2[1]) != -float(ld[row]):
                     mm.append({"prog": str(prog), "dir": "inverse", "model": m2, "impl": [x[row].tolist(), -float(ld[row])]})
+    # the constructor takes "an iterable of Transform objects": the same composite whatever kind of iterable delivers the parts
+    for kind in ("tuple", "generator", "iter", "map", "reversed"):
+        ITER_KIND[0] = kind
+        try:
+            for prog in progs[:60]:
+                if "comp" not in str(prog):
+                    continue
+                bt = attempt(build, prog, Tag, Rev)
+                ck.case(("prog-iterable", kind, str(prog)), nontrivial=True)
+                if bt[0] != "ok":
+                    ck.finding("wrappers:constructor-rejects-iterable:%s" % kind, "program %s: %s %s" % (prog, bt[1], bt[2]), {"search": "prog-iterable", "prog": prog, "kind": kind})
+                    break
+                x = torch.tensor([[1.0, 2.0, 3.0, 5.0], [-4.0, 0.0, 7.0, 8.0]], dtype=torch.float64)
+                got = attempt(bt[1][0], x)
+                ref = reference(prog, x)
+                if got[0] != "ok" or not torch.equal(got[1][0], ref[0]) or not torch.equal(got[1][1], ref[1]):
+                    ck.finding("wrappers:not-function-composition:parts-from-%s" % kind,
+                               "program %s with its parts handed over as a %s: got %s, plain composition gives %s / %s"
+                               % (prog, kind, [v.tolist() for v in got[1]] if got[0] == "ok" else got[1:], ref[0].tolist(), ref[1].tolist()),
+                               {"search": "prog-iterable", "prog": prog, "kind": kind})
+                    break
+        finally:
+            ITER_KIND[0] = "list"
     # the same programs in float64 with leaf log-dets 2**k + 1e-9: the wrappers' sums keep the dtype and every digit of their
     # inputs (an accumulator of another dtype rounds them away); implementation against plain composition
     LD_EPS[0] = 1e-9
